@@ -97,7 +97,7 @@ def main(ctx):
               "reentrant_execs", "twosession_execs", "flat2_decorated_register",
               "flat2_decorated_subscribe", "flat2_encrypted_with_options", "unrequested_progress:ignored",
               "flat2_request_from_callback", "cancelled_call_cases", "given_up_request_cases",
-              "codec_progressive_cases"):
+              "codec_progressive_cases", "per_session_error_classes"):
         ctx.require(n)
 
 
@@ -900,6 +900,39 @@ def _job_twosessions(a, env, seed):
                 if B.fstate(kb)[0] != "pending":
                     bad("other-session-touched", "%s: duplicate on A completed B's request: %r" % (
                         tag, B.fbrief(kb)))
+    # ---- the error a failed request completes with is the one ITS reply carries, surfaced through
+    # the classes registered on ITS session: define() on session A does not change what session B's
+    # requests complete with (each kind of request; A defines before or after B was created)
+    from autobahn.wamp.exception import ApplicationError
+
+    class ErrorOfA(Exception):
+        def __init__(self, *a_, **k_):
+            Exception.__init__(self, *a_)
+    reqtype = {"call": M.Call, "publish": M.Publish, "subscribe": M.Subscribe, "register": M.Register}
+    for kind in kinds:
+        for when in ("before-b-exists", "after-b-exists"):
+            A = H.L1().join()
+            if when == "before-b-exists":
+                A.session.define(ErrorOfA, "com.shared.error")
+            B = H.L1().join()
+            if when == "after-b-exists":
+                A.session.define(ErrorOfA, "com.shared.error")
+            for nm, l1 in (("A", A), ("B", B)):
+                rid = issue(l1, kind, "E" + nm)
+                exc = l1.deliver(M.Error(reqtype[kind].MESSAGE_TYPE, rid, "com.shared.error", args=["why", nm]))
+                l1.settle()
+                st = l1.fstate(kind)
+                stats["twosession_execs"] += 1
+                stats["per_session_error_classes"] = stats.get("per_session_error_classes", 0) + 1
+                want_cls = ErrorOfA if nm == "A" else ApplicationError
+                if exc is not None or st[0] != "err":
+                    bad("error-reply-not-accepted", "%s %s: ERROR reply raised %r, future %r" % (kind, when, exc, l1.fbrief(kind)))
+                elif type(st[1]) is not want_cls:
+                    bad("error-class-of-other-session", "%s, session A define()s a class for com.shared.error (%s): "
+                        "session %s's failed request completed with %s, expected %s" % (
+                            kind, when, nm, type(st[1]).__name__, want_cls.__name__))
+                elif nm == "B" and (st[1].error != "com.shared.error" or list(st[1].args) != ["why", "B"]):
+                    bad("wrong-content", "%s: session B's error carries %r %r" % (kind, st[1].error, st[1].args))
     return {"evals": stats["twosession_execs"], "viol": viol, "stats": stats,
             "samples": [{"kind": "twosessions", "cases": stats["twosession_execs"]}]}
 
